@@ -3,7 +3,6 @@ use std::io;
 use std::sync::Arc;
 use std::sync::atomic::Ordering;
 
-use codeq::OffsetSize;
 use codeq::error_context_ext::ErrorContextExt;
 use log::info;
 
@@ -224,15 +223,35 @@ impl<T: Types> RaftLog<T> {
         let mut prev_end_offset = None;
         let mut last_log_id = None;
 
-        for chunk_id in chunk_ids.iter().copied() {
+        for (i, chunk_id) in chunk_ids.iter().copied().enumerate() {
             // Only the last chunk(open chunk) needs to keep all log payload in
             // cache. Therefore, payloads in previous chunks are marked as
             // evictable.
-            sm.payload_cache.write().unwrap().set_last_evictable(last_log_id);
+            let prev_boundary = {
+                let mut cache = sm.payload_cache.write().unwrap();
+                let prev = cache.last_evictable().cloned();
+                cache.set_last_evictable(last_log_id.clone());
+                prev
+            };
 
             Self::ensure_consecutive_chunks(prev_end_offset, chunk_id)?;
 
             let (chunk, records) = Chunk::open(config.clone(), chunk_id)?;
+
+            // The newest chunk file holds no complete record: the process
+            // crashed while creating it, before its initial State record was
+            // completely written. Nothing is lost: remove the file, it is
+            // created again below (or the previous chunk is re-opened).
+            if chunk.records_count() == 0 && i + 1 == chunk_ids.len() {
+                drop(chunk);
+                std::fs::remove_file(config.chunk_path(chunk_id))?;
+                sm.payload_cache
+                    .write()
+                    .unwrap()
+                    .set_last_evictable(prev_boundary);
+                prev_end_offset = Some(chunk_id.offset());
+                break;
+            }
 
             for (i, record) in records.into_iter().enumerate() {
                 let start = chunk.global_offsets[i];
@@ -241,7 +260,7 @@ impl<T: Types> RaftLog<T> {
                 sm.apply(&record, chunk_id, seg)?;
             }
 
-            prev_end_offset = Some(chunk.last_segment().end().0);
+            prev_end_offset = Some(chunk.global_end());
             last_log_id = sm.log_state.last.clone();
 
             closed.insert(
